@@ -39,6 +39,13 @@ def gen_plan(seed, k):
     rs = usimlib.substream(seed, "sched")
     dm = rp.choice(["null", "null", "lua"])
     nsend = rp.randint(2, 6)
+    # scale: once in a while a session arms hundreds of timers with pairwise different durations (bounded tables,
+    # counters and per-duration structures only show beyond their bound)
+    bulk = rp.random() < 0.004
+    bulk_delays = None
+    if bulk:
+        nsend = rp.randint(258, 320)
+        bulk_delays = rp.sample(range(1, 700), nsend)
     ids = ["id%d" % i for i in range(nsend)]
     root = El("scxml", {"version": "1.0", "datamodel": dm, "initial": "s"})
     s = root.add(El("state", {"id": "s", "initial": "w"}))
@@ -48,18 +55,20 @@ def gen_plan(seed, k):
     small = rp.random() < 0.5  # cluster delays so that timers and cancels collide
     for i in range(nsend):
         d = rp.choice(DELAYS[:7]) if small else rp.choice(DELAYS)
+        if bulk:
+            d = bulk_delays[i]
         sid = ids[i] if rp.random() < 0.8 else rp.choice(ids)
         onentry.add(El("send", {"event": "d%d" % i, "id": sid, "delay": "%dms" % d}, role="send", idx=i, delay=d, sendid=sid))
         sends.append((i, sid, d))
         if d < 3600000:
             maxd = max(maxd, d)
-        if rp.random() < 0.25:
+        if rp.random() < (0.25 if not bulk else 0.02):
             onentry.add(El("cancel", {"sendid": rp.choice(ids + ["nosuch"])}, role="cancel"))
     w = s.add(El("state", {"id": "w"}))
     # timer-triggered cancels / follow-up sends
     nextra = 0
     for (i, sid, d) in sends:
-        if rp.random() < 0.5:
+        if rp.random() < (0.5 if not bulk else 0.03):
             t = w.add(El("transition", {"event": "d%d" % i, "target": "w"}))
             for _ in range(rp.randint(1, 2)):
                 if rp.random() < 0.7:
@@ -95,13 +104,13 @@ def gen_plan(seed, k):
                 tprev = tm
             hops.append({"op": "recv", "i": 0, "name": "h.%d" % n})
         actors["h"] = hops
-    main.append({"op": "run", "i": 0, "block": block, "until": ["FINISHED"], "max": 4000 if block == 1 else 1500})
+    main.append({"op": "run", "i": 0, "block": block, "until": ["FINISHED"], "max": (4000 if block == 1 else 1500) * (8 if bulk else 1)})
     pol = rs.choice(["random", "random", "sticky", "pct"])
     sched = {"seed": rs.getrandbits(31), "policy": pol,
              "sticky_p": rs.choice([0.5, 0.8, 0.95]), "pct_d": rs.randint(1, 4), "pct_horizon": rs.choice([100, 300, 800]),
              "time_adv_p": rs.choice([0, 0.02, 0.1, 0.3]),
              "spurious_p": rs.choice([0, 0, 0.01]), "stall_p": rs.choice([0, 0, 0.02]), "stall_len": rs.choice([5, 30]),
-             "max_decisions": 200000}
+             "max_decisions": 200000 if not bulk else 3000000}
     plan = {"id": k, "seed": seed, "entropy_seed": seed & 0x7fffffff, "sched": sched,
             "charts": {"main": root.xml()}, "actors": actors}
     return plan, root
@@ -235,6 +244,7 @@ def run_one(ctx, usim, seed, k, acc):
     acc.sim_ms += end.get("sim_ms", 0)
     acc.decisions += end.get("decisions", 0)
     acc.count("pol." + plan["sched"]["policy"])
+    acc.count("probe.bulk_runs_with_more_than_256_distinct_timer_durations", 1 if plan["charts"]["main"].count("<send ") > 257 else 0)
     acc.count("fault.adversarial_time_advance", end.get("adv_time", 0))
     acc.count("fault.spurious_wakeup", end.get("spurious", 0))
     acc.count("fault.task_stall", end.get("stalls", 0))
